@@ -1,175 +1,780 @@
 #!/usr/bin/env python3
-"""Extract the *derivation table* of the relational operators of `basic_fitness_t<double>`
-(fitness.tcc) and of `model_measurements::operator>=` (model_measurements.h) from the clang AST
-of /repo's current working tree and emit it as Lean definitions -> lean/Vita/C18/GenOps.lean.
+"""C18 translator: the BODIES of the public surface of `basic_fitness_t<double>` (fitness.tcc),
+of the scalar helpers it calls (utility.h: issmall, isnonnegative, round_to, almost_equal) and of
+`model_measurements::operator>=` (model_measurements.h), from the clang AST of the repo's *current*
+working tree, as Lean terms over the loop language of lean/Vita/C18/Loop.lean
+-> lean/Vita/C18/GenOps.lean.
 
-Only syntax is translated: which operator calls which library algorithm / which other
-operator, with which argument order, under which boolean connectives.  The meaning of the
-library algorithms (`lexLt`, `equal4`, `equal3`, `dominating`, scalar comparisons) is the
-hand-written model in Vita/C18/Model.lean.  Any shape not listed below is refused."""
+Only syntax is translated.  What is translated:
+  statements   compound, `return e;`, `if/else`, declarations of locals (bool, std::size_t, double,
+               an empty `values_t`), assignments and compound assignments to locals / by-value
+               parameters (rendered as shadowing `let`s), `for (std::size_t i(0); i < n; ++i) body`
+               (-> `forIdx n (fun i <assigned local> => body)`; the body may `return`), range-`for`
+               over `auto &` whose body assigns only the element (-> `mapO`), `v[i] op= e` /
+               `v[i] = e` (-> `rd` / `wr`), `ret.reserve(n)` (no effect on the value),
+               `ret.insert(end(ret), begin(x), end(x))` (-> `ret ++ x`), `o << 'c'`,
+               `std::copy(begin(f), end(f), infix_iterator<T>(o, sep))`;
+  expressions  bool / size_t / double arithmetic and comparisons, `&&`, `||`, `!`, `?:` (short-circuit
+               is kept when the right operand can fault), `v[i]`, `v.size()`, `x.fitness`, `x.accuracy`,
+               calls of the other translated functions (-> `call`), of `std::lexicographical_compare`,
+               `std::equal` (3 / 4 iterators), `std::all_of`, `std::any_of`, `std::inner_product`,
+               `std::memcmp(begin(a), begin(b), n * sizeof(T)) == 0`, `std::min/max`,
+               `std::abs/fabs/sqrt/round/isnan/isfinite`, `numeric_limits<double>::epsilon()`, lambdas
+               and function pointers as predicates.
+Anything else raises `Refuse` (the check then fails loudly): a translator never skips code.
+The meaning of the combinators and of the library algorithms is in Loop.lean (defined once)."""
 import os
+import struct
 import sys
 
 sys.path.insert(0, os.path.dirname(os.path.abspath(__file__)))
-from cxx2lean import Refuse, ast_dump, kids, qtype, peel, callee_name
+from cxx2lean import Refuse, ast_dump, kids, qtype, callee_name  # noqa: E402
 
-OPS = {"operator<": "opLt", "operator==": "opEq", "operator>": "opGt",
-       "operator>=": "opGe", "operator<=": "opLe", "operator!=": "opNe"}
-SCALAR = {"<": "slt", ">": "sgt", "<=": "sle", ">=": "sge", "==": "seq", "!=": "sne"}
-NATCMP = {"<": "<", ">": ">", "<=": "≤", ">=": "≥", "==": "=", "!=": "≠"}
 FIT = "basic_fitness_t<double>"
+WRAP = {"ExprWithCleanups", "MaterializeTemporaryExpr", "CXXBindTemporaryExpr", "ParenExpr", "ConstantExpr"}
+PASS_CASTS = {"NoOp", "LValueToRValue", "FunctionToPointerDecay", "ConstructorConversion", "IntegralCast",
+              "UserDefinedConversion", "ArrayToPointerDecay", "BitCast"}
+
+# (C++ name, parameter kinds) -> Lean name; canonical emission order
+FUNCS = [
+    (("issmall", ("dbl",)), "issmallS"),
+    (("isnonnegative", ("dbl",)), "isnonnegativeS"),
+    (("round_to", ("dbl",)), "roundToS"),
+    (("almost_equal", ("dbl", "dbl", "dbl")), "almostEqualS"),
+    (("operator==", ("vec", "vec")), "opEq"),
+    (("operator!=", ("vec", "vec")), "opNe"),
+    (("operator<", ("vec", "vec")), "opLt"),
+    (("operator>", ("vec", "vec")), "opGt"),
+    (("operator>=", ("vec", "vec")), "opGe"),
+    (("operator<=", ("vec", "vec")), "opLe"),
+    (("dominating", ("vec", "vec")), "dominating"),
+    (("almost_equal", ("vec", "vec", "dbl")), "almostEqual"),
+    (("isfinite", ("vec",)), "isfinite"),
+    (("isnan", ("vec",)), "isnan"),
+    (("issmall", ("vec",)), "issmall"),
+    (("isnonnegative", ("vec",)), "isnonnegative"),
+    (("operator+=", ("self", "vec")), "addAssign"),
+    (("operator-=", ("self", "vec")), "subAssign"),
+    (("operator*=", ("self", "vec")), "mulAssign"),
+    (("operator+", ("vec", "vec")), "opAdd"),
+    (("operator-", ("vec", "vec")), "opSub"),
+    (("operator*", ("vec", "vec")), "opMul"),
+    (("operator/", ("vec", "dbl")), "opDivS"),
+    (("operator*", ("vec", "dbl")), "opMulS"),
+    (("abs", ("vec",)), "abs"),
+    (("sqrt", ("vec",)), "sqrt"),
+    (("round_to", ("vec",)), "roundTo"),
+    (("distance", ("vec", "vec")), "distance"),
+    (("combine", ("vec", "vec")), "combine"),
+    (("operator<<", ("ostream", "vec")), "showFit"),
+    (("operator>=", ("mm", "mm")), "mmGe"),
+]
+LEAN = dict(FUNCS)
+LEAN_TY = {"bool": "Bool", "dbl": "F", "vec": "List F", "str": "String", "nat": "Nat"}
+ARITH = {"+": "add", "-": "sub", "*": "mul", "/": "div"}
+DCMP = {"<": "lt", ">": "gt", "<=": "le", ">=": "ge", "==": "eq", "!=": "ne"}
+NCMP = {"<": "<", ">": ">", "<=": "≤", ">=": "≥", "==": "=", "!=": "≠"}
+STD1 = {"abs": "abs", "fabs": "abs", "sqrt": "sqrt", "round": "round"}
+STDP = {"isnan": "isnan", "isfinite": "isfinite"}
 
 
-def unwrap(n):
-    """Strip value-preserving wrappers (also lvalue-to-rvalue loads)."""
+def dbits(x):
+    return "0x%016X" % struct.unpack("<Q", struct.pack("<d", x))[0]
+
+
+def kind_of(t):
+    """C++ type text -> kind"""
+    t = t.replace("const ", "").replace(" const", "").replace("&", "").replace("typename ", "").strip()
+    t = t.replace("vita::", "")
+    if t in ("basic_fitness_t<double>", "basic_fitness_t<double>::values_t", "small_vector<double, 1>",
+             "fitness_t"):
+        return "vec"
+    if t in ("double", "small_vector<double, 1>::value_type", "basic_fitness_t<double>::value_type"):
+        return "dbl"
+    if t in ("bool",):
+        return "bool"
+    if t in ("unsigned long", "std::size_t", "size_t", "small_vector::size_type", "unsigned long long"):
+        return "nat"
+    if t == "model_measurements":
+        return "mm"
+    if t in ("std::ostream", "basic_ostream<char, std::char_traits<char>>", "std::basic_ostream<char>"):
+        return "ostream"
+    if t == "int":
+        return "int"
+    return None
+
+
+def split_params(ftype):
+    """'R (A, B) const' -> (R, [A, B])"""
+    i = ftype.index("(")
+    depth, j = 0, i
+    for j in range(i, len(ftype)):
+        if ftype[j] in "(<":
+            depth += 1
+        elif ftype[j] in ")>":
+            depth -= 1
+            if depth == 0:
+                break
+    inner = ftype[i + 1:j]
+    ps, d, cur = [], 0, ""
+    for ch in inner:
+        if ch in "(<":
+            d += 1
+        elif ch in ")>":
+            d -= 1
+        if ch == "," and d == 0:
+            ps.append(cur.strip())
+            cur = ""
+        else:
+            cur += ch
+    if cur.strip():
+        ps.append(cur.strip())
+    return ftype[:i].strip(), ps
+
+
+def ctype(n):
+    return kind_of(qtype(n)) or kind_of(n.get("type", {}).get("qualType", ""))
+
+
+def strip(n):
+    """peel value-preserving wrappers and casts"""
     while True:
-        m = peel(n)
-        if m.get("kind") == "ImplicitCastExpr" and m.get("castKind") in ("LValueToRValue", "NoOp") \
-                and len(kids(m)) == 1:
-            m = kids(m)[0]
-        if m is n:
+        kd = n.get("kind")
+        ks = kids(n)
+        if kd in WRAP and len(ks) == 1:
+            n = ks[0]
+        elif kd in ("ImplicitCastExpr", "CXXStaticCastExpr", "CXXFunctionalCastExpr") and \
+                n.get("castKind") in PASS_CASTS and len(ks) == 1:
+            n = ks[0]
+        elif kd == "CXXConstructExpr" and len(ks) == 1 and ctype(n) == "vec" and ctype(ks[0]) == "vec":
+            n = ks[0]          # copy / move / converting construction of a vector from a vector
+        else:
             return n
-        n = m
+
+
+def walk(n):
+    yield n
+    for c in n.get("inner", []):
+        if isinstance(c, dict):
+            yield from walk(c)
+
+
+def is_macro(n):
+    r = n.get("range", {})
+    return any(k in r.get(e, {}) for e in ("begin", "end") for k in ("expansionLoc", "spellingLoc"))
 
 
 class Tr:
-    def __init__(self, params, kind):
-        self.p = params          # C++ parameter name -> "lhs" / "rhs"
-        self.kind = kind         # "fitness" | "mm"
+    """one function body"""
+
+    def __init__(self, lean_name):
+        self.me = lean_name
+        self.vars = {}        # C++ name -> (lean text, kind)
         self.deps = set()
-        self.shape = []          # human readable derivation, for the table
+        self.n = 0
+        self.mode = "opt"     # "opt": Option-valued body; "step": inside a forIdx body
+        self.shape = []
 
-    # -- operands ------------------------------------------------------------
+    def fresh(self):
+        self.n += 1
+        return "r%d" % (self.n - 1)
+
+    def ret(self, t):
+        return ("some %s" if self.mode == "opt" else ".ret %s") % t
+
+    # ---- classification -------------------------------------------------
+    def callee_key(self, call):
+        f = strip(kids(call)[0])
+        name = f.get("referencedDecl", {}).get("name") if f.get("kind") == "DeclRefExpr" else \
+            (f.get("name") if f.get("kind") == "MemberExpr" else None)
+        ftype = f.get("type", {}).get("qualType", "")
+        if name is None or "(" not in ftype:
+            return name, None, ftype
+        try:
+            _, ps = split_params(ftype)
+        except ValueError:
+            return name, None, ftype
+        return name, tuple(kind_of(p) for p in ps), ftype
+
+    def effectful(self, n):
+        """can evaluating `n` fault (read a component, call a translated function or an algorithm
+        with a range contract)?"""
+        for m in walk(n):
+            kd = m.get("kind")
+            if kd in ("CXXOperatorCallExpr", "CallExpr", "CXXMemberCallExpr"):
+                name, ps, _ = self.callee_key(m)
+                if name == "operator[]":
+                    return True
+                if ps is not None and (name, ps) in LEAN:
+                    return True
+                if kd == "CXXOperatorCallExpr" and name in ("operator+=", "operator-=", "operator*="):
+                    return True
+                if name in ("memcmp", "all_of", "any_of", "inner_product"):
+                    return True
+                if name == "equal" and len(kids(m)) == 4:
+                    return True
+        return False
+
+    # ---- operands ---------------------------------------------------------
     def vec(self, n):
-        """A fitness-vector operand: a parameter (fitness operators) or `<param>.fitness`."""
-        n = unwrap(n)
-        if n.get("kind") == "DeclRefExpr" and self.kind == "fitness":
+        n = strip(n)
+        kd = n.get("kind")
+        if kd == "DeclRefExpr":
             name = n.get("referencedDecl", {}).get("name")
-            if name in self.p and FIT in qtype(n):
-                return self.p[name]
-        if n.get("kind") == "MemberExpr" and self.kind == "mm" and n.get("name") == "fitness":
-            b = unwrap(kids(n)[0])
+            if name in self.vars and self.vars[name][1] == "vec":
+                return self.vars[name][0]
+        if kd == "CXXThisExpr" and "self" in self.vars:
+            return "self"
+        if kd == "UnaryOperator" and n.get("opcode") == "*" and strip(kids(n)[0]).get("kind") == "CXXThisExpr" \
+                and "self" in self.vars:
+            return "self"
+        if kd == "MemberExpr" and n.get("name") == "fitness":
+            b = strip(kids(n)[0])
             name = b.get("referencedDecl", {}).get("name")
-            if b.get("kind") == "DeclRefExpr" and name in self.p:
-                return self.p[name] + ".fitness"
-        raise Refuse("operand is not a fitness parameter: %s" % n.get("kind"))
-
-    def scalar(self, n):
-        n = unwrap(n)
-        if n.get("kind") == "MemberExpr" and self.kind == "mm" and n.get("name") == "accuracy" \
-                and qtype(n) in ("double", "const double"):
-            b = unwrap(kids(n)[0])
-            name = b.get("referencedDecl", {}).get("name")
-            if b.get("kind") == "DeclRefExpr" and name in self.p:
-                return self.p[name] + ".accuracy"
-        raise Refuse("unknown scalar operand %s" % n.get("kind"))
+            if b.get("kind") == "DeclRefExpr" and name in self.vars and self.vars[name][1] == "mm":
+                return "%s.fitness" % self.vars[name][0]
+        raise Refuse("%s: operand is not a fitness vector: %s %s" % (self.me, kd, qtype(n)))
 
     def iter_of(self, n):
-        """`std::begin(x)`, `std::end(x)`, `x.begin()`, `x.end()`, `x.cbegin()`, `x.cend()`
-        -> ("begin"|"end", operand)."""
-        n = unwrap(n)
+        """`std::begin(x)`, `x.begin()`, … -> ("begin"|"end", vector)"""
+        n = strip(n)
         if n.get("kind") == "CallExpr" and len(kids(n)) == 2:
             nm = callee_name(n)
             if nm in ("begin", "end", "cbegin", "cend"):
                 return nm.lstrip("c"), self.vec(kids(n)[1])
         if n.get("kind") == "CXXMemberCallExpr" and len(kids(n)) == 1:
-            m = unwrap(kids(n)[0])
+            m = strip(kids(n)[0])
             if m.get("kind") == "MemberExpr" and m.get("name") in ("begin", "end", "cbegin", "cend"):
                 return m["name"].lstrip("c"), self.vec(kids(m)[0])
-        raise Refuse("iterator argument of unknown shape: %s" % n.get("kind"))
+        raise Refuse("%s: iterator argument of unknown shape: %s" % (self.me, n.get("kind")))
 
-    def size_of(self, n):
-        n = unwrap(n)
-        if n.get("kind") == "CXXMemberCallExpr" and len(kids(n)) == 1:
-            m = unwrap(kids(n)[0])
-            if m.get("kind") == "MemberExpr" and m.get("name") == "size":
-                return self.vec(kids(m)[0]) + ".length"
+    def whole_range(self, a, b):
+        (ka, va), (kb, vb) = self.iter_of(a), self.iter_of(b)
+        if (ka, kb) != ("begin", "end") or va != vb:
+            raise Refuse("%s: range is not begin(x), end(x)" % self.me)
+        return va
+
+    def element_ref(self, n):
+        """`v[i]` as an lvalue / a read: (vector, index node) or None"""
+        n = strip(n)
+        if n.get("kind") == "CXXOperatorCallExpr" and callee_name(n) == "operator[]" and len(kids(n)) == 3:
+            return self.vec(kids(n)[1]), kids(n)[2]
+        if n.get("kind") == "CXXMemberCallExpr" and len(kids(n)) == 2:
+            m = strip(kids(n)[0])
+            if m.get("kind") == "MemberExpr" and m.get("name") == "operator[]":
+                return self.vec(kids(m)[0]), kids(n)[1]
         return None
 
-    # -- boolean expressions -------------------------------------------------
-    def expr(self, n):
-        n = unwrap(n)
-        k = n.get("kind")
-        if k == "CXXBoolLiteralExpr":
-            return "true" if n.get("value") else "false"
-        if k == "UnaryOperator" and n.get("opcode") == "!":
-            return "(!%s)" % self.expr(kids(n)[0])
-        if k == "BinaryOperator":
+    def predicate(self, n):
+        """a unary predicate / binary operation given as a function pointer or a lambda -> Lean `fun`"""
+        n = strip(n)
+        if n.get("kind") == "DeclRefExpr":
+            name = n.get("referencedDecl", {}).get("name")
+            ftype = n.get("type", {}).get("qualType", "")
+            if ftype.startswith("bool (double)"):
+                if name in STDP:
+                    return "(fun x => some (o.%s x))" % STDP[name]
+                if (name, ("dbl",)) in LEAN:
+                    self.deps.add(LEAN[(name, ("dbl",))])
+                    return "(fun x => %s c o x)" % LEAN[(name, ("dbl",))]
+            raise Refuse("%s: function pointer to %r of type %r" % (self.me, name, ftype))
+        if n.get("kind") == "LambdaExpr":
+            rec = [c for c in kids(n) if c.get("kind") == "CXXRecordDecl"]
+            ops = [m for m in kids(rec[0]) if m.get("kind") == "CXXMethodDecl" and m.get("name") == "operator()"] \
+                if rec else []
+            if len(ops) != 1 or any(c.get("kind") == "FieldDecl" for c in kids(rec[0])):
+                raise Refuse("%s: lambda with captures / without a single call operator" % self.me)
+            op = ops[0]
+            ps = [c for c in kids(op) if c.get("kind") == "ParmVarDecl"]
+            body = [c for c in kids(op) if c.get("kind") == "CompoundStmt"]
+            if not body or any(ctype(p) != "dbl" for p in ps):
+                raise Refuse("%s: lambda parameters must be doubles" % self.me)
+            sub = Tr(self.me)
+            sub.n = self.n
+            for p in ps:
+                sub.vars[p["name"]] = (p["name"], "dbl")
+            txt = sub.stmts([body[0]], None)
+            self.n = sub.n
+            self.deps |= sub.deps
+            return "(fun %s =>\n%s)" % (" ".join(p["name"] for p in ps), txt)
+        raise Refuse("%s: predicate of unknown shape %s" % (self.me, n.get("kind")))
+
+    # ---- expressions (CPS: k(text, kind) -> text of the rest) ---------------
+    def seq(self, nodes, k):
+        def go(i, acc):
+            if i == len(nodes):
+                return k(acc)
+            return self.ex(nodes[i], lambda t, ty: go(i + 1, acc + [(t, ty)]))
+        return go(0, [])
+
+    def ex(self, n, k):
+        kd = n.get("kind")
+        ks = kids(n)
+        if kd in WRAP and len(ks) == 1:
+            return self.ex(ks[0], k)
+        if kd in ("ImplicitCastExpr", "CXXStaticCastExpr", "CXXFunctionalCastExpr", "CStyleCastExpr"):
+            ck = n.get("castKind")
+            if ck in PASS_CASTS:
+                return self.ex(ks[-1], k)
+            if ck == "IntegralToBoolean":
+                def tob(t, ty):
+                    if ty != "nat":
+                        raise Refuse("%s: integral-to-boolean conversion from %s" % (self.me, ty))
+                    return k("(decide (%s ≠ 0))" % t, "bool")
+                return self.ex(ks[-1], tob)
+            if ck == "IntegralToFloating":
+                lit = strip(ks[-1])
+                if lit.get("kind") == "IntegerLiteral":
+                    return k("(o.lit %s)" % dbits(float(int(lit["value"]))), "dbl")
+                raise Refuse("%s: integral-to-floating conversion of a non-literal" % self.me)
+            raise Refuse("%s: cast kind %s" % (self.me, ck))
+        if kd == "CXXConstructExpr" and len(ks) == 1 and ctype(n) == "vec":
+            return self.ex(ks[0], k)
+        if kd == "CXXBoolLiteralExpr":
+            return k("true" if n["value"] else "false", "bool")
+        if kd == "IntegerLiteral":
+            return k(str(int(n["value"])), "nat")
+        if kd == "FloatingLiteral":
+            return k("(o.lit %s)" % dbits(float(n["value"])), "dbl")
+        if kd == "DeclRefExpr":
+            name = n.get("referencedDecl", {}).get("name")
+            if name in self.vars:
+                return k(*self.vars[name])
+            raise Refuse("%s: reference to unknown variable %r" % (self.me, name))
+        if kd == "CXXThisExpr" or (kd == "UnaryOperator" and n.get("opcode") == "*" and ctype(n) == "vec"):
+            return k(self.vec(n), "vec")
+        if kd == "MemberExpr":
+            b = strip(ks[0])
+            bname = b.get("referencedDecl", {}).get("name")
+            if b.get("kind") == "DeclRefExpr" and bname in self.vars and self.vars[bname][1] == "mm":
+                if n.get("name") == "fitness":
+                    return k("%s.fitness" % self.vars[bname][0], "vec")
+                if n.get("name") == "accuracy" and ctype(n) == "dbl":
+                    return k("%s.accuracy" % self.vars[bname][0], "dbl")
+            raise Refuse("%s: member access .%s" % (self.me, n.get("name")))
+        if kd == "UnaryOperator":
             op = n.get("opcode")
-            a, b = kids(n)
-            if op in ("&&", "||"):
-                return "(%s %s %s)" % (self.expr(a), op, self.expr(b))
-            if op in SCALAR:
-                sa, sb = self.size_of(a), self.size_of(b)
-                if sa and sb:
-                    return "(decide (%s %s %s))" % (sa, NATCMP[op], sb)
-                if qtype(unwrap(a)) in ("double", "const double") and qtype(unwrap(b)) in ("double", "const double"):
-                    return "(%s key %s %s)" % (SCALAR[op], self.scalar(a), self.scalar(b))
-            raise Refuse("binary operator %s on %s" % (op, qtype(unwrap(a))))
-        if k == "ConditionalOperator":
-            c, t, e = kids(n)
-            return "(if %s then %s else %s)" % (self.expr(c), self.expr(t), self.expr(e))
-        if k in ("CallExpr", "CXXOperatorCallExpr"):
-            name = callee_name(n)
-            f = unwrap(kids(n)[0])
-            ftype = qtype(f)
-            args = kids(n)[1:]
-            if name in ("lexicographical_compare", "equal"):
-                if "double *" not in ftype or ftype.count("const double *") != len(args):
-                    raise Refuse("%s over %s" % (name, ftype))
-                its = [self.iter_of(a) for a in args]
-                if name == "lexicographical_compare" and len(its) == 4 and \
-                        [i[0] for i in its] == ["begin", "end", "begin", "end"] and \
-                        its[0][1] == its[1][1] and its[2][1] == its[3][1]:
-                    self.shape.append("std::lexicographical_compare(%s, %s)" % (its[0][1], its[2][1]))
-                    return "(lexLt key %s %s)" % (its[0][1], its[2][1])
-                if name == "equal" and len(its) == 4 and \
-                        [i[0] for i in its] == ["begin", "end", "begin", "end"] and \
-                        its[0][1] == its[1][1] and its[2][1] == its[3][1]:
-                    self.shape.append("std::equal[4 iterators](%s, %s)" % (its[0][1], its[2][1]))
-                    return "(equal4 key %s %s)" % (its[0][1], its[2][1])
-                if name == "equal" and len(its) == 3 and [i[0] for i in its] == ["begin", "end", "begin"] \
-                        and its[0][1] == its[1][1]:
-                    self.shape.append("std::equal[3 iterators](%s, %s)" % (its[0][1], its[2][1]))
-                    return "(equal3 key %s %s)" % (its[0][1], its[2][1])
-                raise Refuse("%s with iterator arguments %s" % (name, its))
-            if name in OPS and len(args) == 2 and FIT in ftype:
-                a, b = self.vec(args[0]), self.vec(args[1])
-                self.deps.add(name)
-                self.shape.append("%s(%s, %s)" % (name, a, b))
-                return "(%s key %s %s)" % (OPS[name], a, b)
-            if name == "dominating" and len(args) == 2 and FIT in ftype:
-                a, b = self.vec(args[0]), self.vec(args[1])
-                self.shape.append("dominating(%s, %s)" % (a, b))
-                return "(dominating key %s %s)" % (a, b)
-            raise Refuse("call to %r of type %s" % (name, ftype))
-        raise Refuse("expression node %s" % k)
+            if op == "!":
+                return self.ex(ks[0], lambda t, ty: k("(!%s)" % t, "bool"))
+            if op == "+" and ctype(n) == "dbl":
+                return self.ex(ks[0], k)
+            raise Refuse("%s: unary operator %s" % (self.me, op))
+        if kd == "BinaryOperator":
+            return self.binop(n, k)
+        if kd == "ConditionalOperator":
+            if any(self.effectful(x) for x in ks[1:]):
+                return self.ex(ks[0], lambda t, ty: "if %s then\n%s\nelse\n%s" % (
+                    t, self.ex(ks[1], k), self.ex(ks[2], k)))
+            return self.seq(ks, lambda a: k("(if %s then %s else %s)" % (a[0][0], a[1][0], a[2][0]), a[1][1]))
+        if kd in ("CallExpr", "CXXOperatorCallExpr", "CXXMemberCallExpr"):
+            return self.call(n, k)
+        raise Refuse("%s: expression node %s" % (self.me, kd))
 
-    # -- statements ----------------------------------------------------------
-    def body(self, stmts):
-        if not stmts:
-            raise Refuse("control reaches the end of a non-void function")
-        s, rest = stmts[0], stmts[1:]
-        k = s.get("kind")
-        if k == "CompoundStmt":
-            return self.body(kids(s) + rest)
-        if k == "NullStmt":
-            return self.body(rest)
-        if k == "ReturnStmt":
-            return self.expr(kids(s)[0])
-        if k == "IfStmt":
+    def binop(self, n, k):
+        op = n.get("opcode")
+        a, b = kids(n)
+        if op in ("&&", "||"):
+            if self.effectful(b):
+                def sc(t, ty):
+                    if op == "&&":
+                        return "if %s then\n%s\nelse\n%s" % (t, self.ex(b, k), k("false", "bool"))
+                    return "if %s then\n%s\nelse\n%s" % (t, k("true", "bool"), self.ex(b, k))
+                return self.ex(a, sc)
+            return self.seq([a, b], lambda r: k("(%s %s %s)" % (r[0][0], op, r[1][0]), "bool"))
+        # `std::memcmp(begin(a), begin(b), n * sizeof(T)) == 0`
+        if op in ("==", "!=") and self.is_memcmp(strip(a)) and self.is_zero(b):
+            return self.memcmp(strip(a), lambda t, ty: k(t if op == "==" else "(!%s)" % t, "bool"))
+        if op in ("==", "!=") and self.is_memcmp(strip(b)) and self.is_zero(a):
+            return self.memcmp(strip(b), lambda t, ty: k(t if op == "==" else "(!%s)" % t, "bool"))
+
+        def fin(r):
+            (x, tx), (y, ty) = r
+            if tx == "dbl" and ty == "dbl":
+                if op in ARITH:
+                    return k("(o.%s %s %s)" % (ARITH[op], x, y), "dbl")
+                if op in DCMP:
+                    return k("(c.%s %s %s)" % (DCMP[op], x, y), "bool")
+            if tx == "nat" and ty == "nat":
+                if op in NCMP:
+                    return k("(decide (%s %s %s))" % (x, NCMP[op], y), "bool")
+                if op in ("+", "*"):
+                    return k("(%s %s %s)" % (x, op, y), "nat")
+            if tx == "bool" and ty == "bool" and op in ("==", "!="):
+                return k("(%s %s %s)" % (x, op, y), "bool")
+            raise Refuse("%s: binary operator %s on %s, %s" % (self.me, op, tx, ty))
+        return self.seq([a, b], fin)
+
+    def is_zero(self, n):
+        n = strip(n)
+        return n.get("kind") == "IntegerLiteral" and int(n.get("value", "1")) == 0
+
+    def is_memcmp(self, n):
+        return n.get("kind") == "CallExpr" and callee_name(n) == "memcmp" and len(kids(n)) == 4
+
+    def memcmp(self, n, k):
+        a, b, cnt = kids(n)[1:]
+        (ka, va), (kb, vb) = self.iter_of(a), self.iter_of(b)
+        cnt = strip(cnt)
+        if (ka, kb) != ("begin", "begin") or cnt.get("kind") != "BinaryOperator" or cnt.get("opcode") != "*":
+            raise Refuse("%s: memcmp arguments of unknown shape" % self.me)
+        x, y = [strip(z) for z in kids(cnt)]
+        if x.get("kind") == "UnaryExprOrTypeTraitExpr":
+            x, y = y, x
+        if y.get("kind") != "UnaryExprOrTypeTraitExpr" or y.get("name") != "sizeof" or \
+                kind_of(y.get("argType", {}).get("qualType", "")) != "dbl":
+            raise Refuse("%s: memcmp length is not `n * sizeof(T)`" % self.me)
+        r = self.fresh()
+        self.shape.append("memcmp")
+
+        def withn(t, ty):
+            if ty != "nat":
+                raise Refuse("%s: memcmp element count of type %s" % (self.me, ty))
+            return "call (memEqO c %s %s %s) fun %s =>\n%s" % (va, vb, t, r, k(r, "bool"))
+        return self.ex(x, withn)
+
+    def call(self, n, k):
+        kd = n.get("kind")
+        ks = kids(n)
+        if kd == "CXXOperatorCallExpr" and callee_name(n) == "operator<<" and "ostream" in self.kinds():
+            return k(self.stream_expr(n), "str")
+        # reads of a component
+        el = self.element_ref(n)
+        if el is not None:
+            v, idx = el
+            r = self.fresh()
+            return self.ex(idx, lambda t, ty: "rd %s %s fun %s =>\n%s" % (v, t, r, k(r, "dbl")))
+        if kd == "CXXMemberCallExpr":
+            m = strip(ks[0])
+            if m.get("kind") == "MemberExpr" and m.get("name") == "size" and len(ks) == 1:
+                return k("%s.length" % self.vec(kids(m)[0]), "nat")
+            raise Refuse("%s: member call %s" % (self.me, m.get("name")))
+        name, ps, ftype = self.callee_key(n)
+        args = ks[1:]
+        # the translated functions
+        if kd == "CXXOperatorCallExpr" and name in ("operator+=", "operator-=", "operator*=") and len(args) == 2 \
+                and ctype(args[0]) == "vec" and ctype(args[1]) == "vec":
+            ps = ("self", "vec")
+        if ps is not None and (name, ps) in LEAN:
+            ln = LEAN[(name, ps)]
+            self.deps.add(ln)
+            self.shape.append(ln)
+            r = self.fresh()
+            rty = {"bool": "bool", "double": "dbl"}.get(split_params(ftype)[0].replace("const ", "").strip(), "vec")
+
+            def done(a):
+                for (t, ty), want in zip(a, ps):
+                    if ty != ("vec" if want == "self" else want):
+                        raise Refuse("%s: argument of %s has kind %s, expected %s" % (self.me, name, ty, want))
+                return "call (%s c o %s) fun %s =>\n%s" % (ln, " ".join(t for t, _ in a), r, k(r, rty))
+            return self.seq(args, done)
+        # library
+        if name == "lexicographical_compare" and len(args) == 4 and "double *" in ftype:
+            va, vb = self.whole_range(args[0], args[1]), self.whole_range(args[2], args[3])
+            self.shape.append("std::lexicographical_compare")
+            return k("(lexLtC c %s %s)" % (va, vb), "bool")
+        if name == "equal" and len(args) == 4 and "double *" in ftype:
+            va, vb = self.whole_range(args[0], args[1]), self.whole_range(args[2], args[3])
+            self.shape.append("std::equal/4")
+            return k("(equal4C c %s %s)" % (va, vb), "bool")
+        if name == "equal" and len(args) == 3 and "double *" in ftype:
+            va = self.whole_range(args[0], args[1])
+            kb, vb = self.iter_of(args[2])
+            if kb != "begin":
+                raise Refuse("%s: std::equal third iterator is not begin(x)" % self.me)
+            self.shape.append("std::equal/3")
+            r = self.fresh()
+            return "call (equal3C c %s %s) fun %s =>\n%s" % (va, vb, r, k(r, "bool"))
+        if name in ("all_of", "any_of") and len(args) == 3 and "double *" in ftype:
+            v = self.whole_range(args[0], args[1])
+            p = self.predicate(args[2])
+            r = self.fresh()
+            self.shape.append("std::" + name)
+            return "call (%s %s %s) fun %s =>\n%s" % ("allOfO" if name == "all_of" else "anyOfO", p, v, r, k(r, "bool"))
+        if name == "inner_product" and len(args) == 6 and "double *" in ftype:
+            va = self.whole_range(args[0], args[1])
+            kb, vb = self.iter_of(args[2])
+            plus = strip(args[4])
+            if kb != "begin" or "std::plus<" not in qtype(plus).replace("plus<void>", "plus<>") + "<":
+                raise Refuse("%s: inner_product arguments of unknown shape" % self.me)
+            prod = self.predicate(args[5])
+            r = self.fresh()
+            self.shape.append("std::inner_product")
+            return self.ex(args[3], lambda t, ty: "call (innerProductO o.add %s %s %s %s) fun %s =>\n%s" % (
+                prod, t, va, vb, r, k(r, "dbl")))
+        if name in STD1 and ps == ("dbl",) and ftype.startswith("double (double)"):
+            return self.ex(args[0], lambda t, ty: k("(o.%s %s)" % (STD1[name], t), "dbl"))
+        if name in STDP and ps == ("dbl",) and ftype.startswith("bool (double)"):
+            return self.ex(args[0], lambda t, ty: k("(o.%s %s)" % (STDP[name], t), "bool"))
+        if name == "max" and ps == ("dbl", "dbl"):
+            return self.seq(args, lambda a: k("(stdMax c %s %s)" % (a[0][0], a[1][0]), "dbl"))
+        if name in ("min", "max") and ps == ("nat", "nat"):
+            return self.seq(args, lambda a: k("(%s %s %s)" % (name, a[0][0], a[1][0]), "nat"))
+        if name == "epsilon" and not args and ftype.startswith("double ()"):
+            return k("(o.lit %s)" % dbits(2.0 ** -52), "dbl")
+        raise Refuse("%s: call to %r of type %r" % (self.me, name, ftype))
+
+    # ---- statements --------------------------------------------------------
+    def assigned(self, n):
+        """C++ names of the locals / vectors a statement assigns"""
+        out = []
+        for m in walk(n):
+            kd = m.get("kind")
+            if kd in ("BinaryOperator", "CompoundAssignOperator") and \
+                    (kd == "CompoundAssignOperator" or m.get("opcode") == "="):
+                lhs = strip(kids(m)[0])
+                el = self.element_ref(lhs)
+                if el is not None:
+                    out.append(el[0])
+                elif lhs.get("kind") == "DeclRefExpr":
+                    name = lhs.get("referencedDecl", {}).get("name")
+                    if name in self.vars:
+                        out.append(self.vars[name][0])
+                    else:
+                        out.append(name)
+        return out
+
+    def stmts(self, ss, end):
+        """`end()` renders what happens when control reaches the end of the list (None: it must not)."""
+        if not ss:
+            if end is None:
+                raise Refuse("%s: control reaches the end of a non-void function" % self.me)
+            return end()
+        s, rest = ss[0], ss[1:]
+        kd = s.get("kind")
+        ks = kids(s)
+        if kd == "CompoundStmt":
+            return self.stmts(ks + rest, end)
+        if kd == "NullStmt":
+            return self.stmts(rest, end)
+        if kd == "ReturnStmt":
+            return self.ex(ks[0], lambda t, ty: self.ret(t))
+        if kd == "IfStmt":
             if s.get("hasInit") or s.get("hasVar"):
-                raise Refuse("if with initialiser")
-            ks = kids(s)
-            c = self.expr(ks[0])
-            t = self.body([ks[1]])
-            e = self.body(([ks[2]] if s.get("hasElse") else []) + rest)
-            return "(if %s then %s else %s)" % (c, t, e)
-        raise Refuse("statement %s" % k)
+                raise Refuse("%s: if with initialiser" % self.me)
+
+            def cond(t, ty):
+                if ty != "bool":
+                    raise Refuse("%s: if condition of kind %s" % (self.me, ty))
+                saved = dict(self.vars)
+                th = self.stmts([ks[1]] + rest, end)
+                self.vars = dict(saved)
+                el = self.stmts(([ks[2]] if s.get("hasElse") else []) + rest, end)
+                self.vars = saved
+                return "if %s then\n%s\nelse\n%s" % (t, th, el)
+            return self.ex(ks[0], cond)
+        if kd == "DeclStmt":
+            return self.decls(ks, rest, end)
+        if kd in ("BinaryOperator", "CompoundAssignOperator"):
+            return self.assign(s, rest, end)
+        if kd == "ForStmt":
+            return self.for_idx(s, rest, end)
+        if kd == "CXXForRangeStmt":
+            return self.for_range(s, rest, end)
+        if kd == "CXXMemberCallExpr":
+            return self.member_stmt(s, rest, end)
+        if kd in ("CXXOperatorCallExpr", "CallExpr") and "ostream" in self.kinds():
+            return self.stream_stmt(s, rest, end)
+        if kd in WRAP and len(ks) == 1:
+            return self.stmts([ks[0]] + rest, end)
+        raise Refuse("%s: statement %s" % (self.me, kd))
+
+    def kinds(self):
+        return {k for (_, k) in self.vars.values()}
+
+    def decls(self, ds, rest, end):
+        def go(i):
+            if i == len(ds):
+                return self.stmts(rest, end)
+            d = ds[i]
+            if d.get("kind") == "StaticAssertDecl":
+                return go(i + 1)
+            if d.get("kind") != "VarDecl":
+                raise Refuse("%s: declaration %s" % (self.me, d.get("kind")))
+            ty = ctype(d)
+            name = d["name"]
+            init = kids(d)
+            if ty == "vec":
+                c = strip(init[0]) if init else {}
+                if c.get("kind") == "CXXConstructExpr" and all(x.get("kind") == "CXXDefaultArgExpr" for x in kids(c)):
+                    self.vars[name] = (name, "vec")
+                    return "let %s : List F := [];\n%s" % (name, go(i + 1))
+                raise Refuse("%s: vector local %s is not default-constructed" % (self.me, name))
+            if ty not in ("bool", "nat", "dbl") or not init:
+                raise Refuse("%s: local %s of type %s" % (self.me, name, qtype(d)))
+
+            def bind(t, tty):
+                if tty != ty:
+                    raise Refuse("%s: local %s declared %s, initialiser %s" % (self.me, name, ty, tty))
+                self.vars[name] = (name, ty)
+                return "let %s := %s;\n%s" % (name, t, go(i + 1))
+            return self.ex(init[0], bind)
+        return go(0)
+
+    def assign(self, s, rest, end):
+        op = s.get("opcode")
+        lhs, rhs = kids(s)
+        if s.get("kind") == "BinaryOperator" and op != "=":
+            raise Refuse("%s: expression statement with operator %s" % (self.me, op))
+        el = self.element_ref(lhs)
+        if el is not None:                   # v[i] = e / v[i] op= e   (C++17: right operand first)
+            v, idx = el
+
+            def with_rhs(t, ty):
+                if ty != "dbl":
+                    raise Refuse("%s: component assigned a %s" % (self.me, ty))
+
+                def with_idx(ti, tyi):
+                    if op == "=":
+                        return "wr %s %s %s fun %s =>\n%s" % (v, ti, t, v, self.stmts(rest, end))
+                    if op[:-1] not in ARITH:
+                        raise Refuse("%s: compound assignment %s" % (self.me, op))
+                    r = self.fresh()
+                    return "rd %s %s fun %s =>\nwr %s %s (o.%s %s %s) fun %s =>\n%s" % (
+                        v, ti, r, v, ti, ARITH[op[:-1]], r, t, v, self.stmts(rest, end))
+                return self.ex(idx, with_idx)
+            return self.ex(rhs, with_rhs)
+        l = strip(lhs)
+        name = l.get("referencedDecl", {}).get("name") if l.get("kind") == "DeclRefExpr" else None
+        if name not in self.vars or self.vars[name][1] not in ("bool", "dbl", "nat"):
+            raise Refuse("%s: assignment to %s" % (self.me, name or l.get("kind")))
+        lean, ty = self.vars[name]
+
+        def with_rhs(t, tty):
+            if tty != ty:
+                raise Refuse("%s: %s assigned a %s" % (self.me, name, tty))
+            if op == "=":
+                return "let %s := %s;\n%s" % (lean, t, self.stmts(rest, end))
+            if ty != "dbl" or op[:-1] not in ARITH:
+                raise Refuse("%s: compound assignment %s on %s" % (self.me, op, ty))
+            return "let %s := (o.%s %s %s);\n%s" % (lean, ARITH[op[:-1]], lean, t, self.stmts(rest, end))
+        return self.ex(rhs, with_rhs)
+
+    def for_idx(self, s, rest, end):
+        ks = kids(s)
+        if len(ks) != 4:
+            raise Refuse("%s: for statement of unknown shape" % self.me)
+        init, cond, inc, body = ks
+        iv = kids(init)[0] if init.get("kind") == "DeclStmt" and len(kids(init)) == 1 else {}
+        if iv.get("kind") != "VarDecl" or ctype(iv) != "nat" or not kids(iv) or not self.is_zero(kids(iv)[0]):
+            raise Refuse("%s: loop counter is not `std::size_t i(0)`" % self.me)
+        i = iv["name"]
+        c = strip(cond)
+        if c.get("kind") != "BinaryOperator" or c.get("opcode") != "<":
+            raise Refuse("%s: loop condition is not `i < n`" % self.me)
+        cl, cr = [strip(x) for x in kids(c)]
+        if cl.get("kind") != "DeclRefExpr" or cl.get("referencedDecl", {}).get("name") != i:
+            raise Refuse("%s: loop condition is not `i < n`" % self.me)
+        inc = strip(inc)
+        if inc.get("kind") != "UnaryOperator" or inc.get("opcode") != "++" or \
+                strip(kids(inc)[0]).get("referencedDecl", {}).get("name") != i:
+            raise Refuse("%s: loop increment is not `++i`" % self.me)
+        if self.mode != "opt":
+            raise Refuse("%s: nested loops" % self.me)
+        mut = sorted(set(self.assigned(body)))
+        if i in mut:
+            raise Refuse("%s: the loop body assigns the counter" % self.me)
+        for m in mut:
+            if m not in [v for (v, _) in self.vars.values()]:
+                raise Refuse("%s: the loop body assigns %s" % (self.me, m))
+        if len(mut) > 1:
+            raise Refuse("%s: the loop body assigns more than one local (%s)" % (self.me, ", ".join(mut)))
+        st = mut[0] if mut else None
+        pat, val = (st, st) if st else ("(_u : Unit)", "()")
+
+        def with_bound(t, ty):
+            if ty != "nat":
+                raise Refuse("%s: loop bound of kind %s" % (self.me, ty))
+            if st and st in t.split("."):       # `i < size()` of the vector the body writes: `wr` keeps the length
+                pass
+            saved = dict(self.vars)
+            self.vars[i] = (i, "nat")
+            self.mode = "step"
+            b = self.stmts([body], lambda: ".next %s" % val)
+            self.mode = "opt"
+            self.vars = saved
+            after = self.stmts(rest, end)
+            return "Step.andThen (forIdx %s (fun %s %s =>\n%s) %s) fun %s =>\n%s" % (t, i, pat, b, val, pat, after)
+        return self.ex(cr, with_bound)
+
+    def for_range(self, s, rest, end):
+        ks = kids(s)
+        if len(ks) != 7:
+            raise Refuse("%s: range-for of unknown shape" % self.me)
+        rng, _b, _e, _c, _i, var, body = ks
+        rv = kids(rng)[0]
+        v = self.vec(kids(rv)[0])
+        lv = kids(var)[0]
+        if lv.get("kind") != "VarDecl" or "&" not in lv.get("type", {}).get("qualType", "") or \
+                "const" in lv.get("type", {}).get("qualType", "") or ctype(lv) != "dbl":
+            raise Refuse("%s: range-for variable is not `auto &` over doubles" % self.me)
+        x = lv["name"]
+        sub = Tr(self.me)
+        sub.n = self.n
+        sub.vars = {nm: val for nm, val in self.vars.items() if val[1] not in ("vec", "mm")}   # only scalars
+        sub.vars[x] = (x, "dbl")
+        for nm in sub.assigned(body):
+            if nm != x:
+                raise Refuse("%s: the range-for body assigns %s" % (self.me, nm))
+        if any(m.get("kind") == "ReturnStmt" for m in walk(body)):
+            raise Refuse("%s: return inside a range-for" % self.me)
+        b = sub.stmts([body], lambda: "some %s" % x)
+        self.n = sub.n
+        self.deps |= sub.deps
+        return "call (mapO (fun %s =>\n%s) %s) fun %s =>\n%s" % (x, b, v, v, self.stmts(rest, end))
+
+    def member_stmt(self, s, rest, end):
+        ks = kids(s)
+        m = strip(ks[0])
+        if m.get("kind") != "MemberExpr":
+            raise Refuse("%s: member call of unknown shape" % self.me)
+        v = self.vec(kids(m)[0])
+        if m.get("name") == "reserve" and len(ks) == 2:
+            # capacity only: the value of the vector does not change (the container is C20's subject)
+            return self.ex(ks[1], lambda t, ty: self.stmts(rest, end))
+        if m.get("name") == "insert" and len(ks) == 4:
+            kp, vp = self.iter_of(ks[1])
+            src = self.whole_range(ks[2], ks[3])
+            if vp != v or kp not in ("begin", "end"):
+                raise Refuse("%s: insert position is not begin/end of the same vector" % self.me)
+            new = "(%s ++ %s)" % ((v, src) if kp == "end" else (src, v))
+            return "let %s := %s;\n%s" % (v, new, self.stmts(rest, end))
+        raise Refuse("%s: member call %s" % (self.me, m.get("name")))
+
+    # ---- `operator<<` --------------------------------------------------------
+    def stream_expr(self, n):
+        """`o << 'c'` -> the new stream contents"""
+        n = strip(n)
+        if n.get("kind") == "CXXOperatorCallExpr" and callee_name(n) == "operator<<" and len(kids(n)) == 3:
+            o = strip(kids(n)[1])
+            ch = strip(kids(n)[2])
+            if o.get("kind") == "DeclRefExpr" and self.vars.get(o.get("referencedDecl", {}).get("name"), ("", ""))[1] \
+                    == "ostream" and ch.get("kind") == "CharacterLiteral":
+                c = chr(int(ch["value"]))
+                if c in '"\\' or not (32 <= ord(c) < 127):
+                    raise Refuse("%s: character literal %r" % (self.me, c))
+                return '(out ++ "%s")' % c
+        raise Refuse("%s: stream expression of unknown shape" % self.me)
+
+    def stream_stmt(self, s, rest, end):
+        if s.get("kind") == "CallExpr" and callee_name(s) == "copy" and len(kids(s)) == 4:
+            a = kids(s)[1:]
+            v = self.whole_range(a[0], a[1])
+            it = strip(a[2])
+            if it.get("kind") != "CXXTemporaryObjectExpr" or "infix_iterator<double>" not in qtype(it) or \
+                    len(kids(it)) != 2:
+                raise Refuse("%s: std::copy target is not an infix_iterator<double>(o, sep)" % self.me)
+            sep = strip(kids(it)[1])
+            if sep.get("kind") != "StringLiteral":
+                raise Refuse("%s: infix_iterator separator is not a string literal" % self.me)
+            return "let out := (copyInfix fmt out %s %s);\n%s" % (v, sep["value"], self.stmts(rest, end))
+        return "let out := %s;\n%s" % (self.stream_expr(s), self.stmts(rest, end))
 
 
-def specialisation(tmpl):
-    """The `double` instantiation (with body) of a function template."""
+# ---------------------------------------------------------------------------
+
+def specialisations(tmpl):
+    """the `double` instantiations (with body) of a function template"""
+    out = []
     for f in kids(tmpl):
         if f.get("kind") != "FunctionDecl":
             continue
@@ -177,50 +782,134 @@ def specialisation(tmpl):
         targs = [c for c in inner if c.get("kind") == "TemplateArgument"]
         if targs and targs[0].get("type", {}).get("qualType") == "double" and \
                 any(c.get("kind") == "CompoundStmt" for c in inner):
-            return f
-    return None
+            out.append(f)
+    return out
 
 
-def params_of(f, want):
+def fn_key(f, member=False):
     ps = [c for c in kids(f) if c.get("kind") == "ParmVarDecl"]
-    if len(ps) != 2 or any(want not in qtype(p) for p in ps):
-        return None
-    return {ps[0].get("name"): "lhs", ps[1].get("name"): "rhs"}
+    ks = tuple(ctype(p) for p in ps)
+    if member:
+        ks = ("self",) + ks
+    return (f.get("name"), ks), ps
+
+
+def collect():
+    found = {}
+
+    def add(key, f, ps, member=False):
+        if key not in LEAN:
+            return
+        if key in found:
+            raise Refuse("two definitions of %s%s" % key)
+        found[key] = (f, ps, member)
+
+    seen_ids = set()
+    names = {k[0] for k, _ in FUNCS}
+    for d in ast_dump("fitness_tu.cc", "vita::"):
+        for m in walk(d):
+            kd = m.get("kind")
+            if kd not in ("FunctionTemplateDecl", "FunctionDecl", "CXXMethodDecl") or m.get("name") not in names:
+                continue
+            if m.get("id") in seen_ids:
+                continue
+            seen_ids.add(m.get("id"))
+            if kd == "FunctionTemplateDecl":
+                for f in specialisations(m):
+                    seen_ids.add(f.get("id"))
+                    key, ps = fn_key(f)
+                    add(key, f, ps)
+            elif kd == "FunctionDecl" and any(c.get("kind") == "CompoundStmt" for c in kids(m)):
+                key, ps = fn_key(m)
+                if key == ("operator>=", ("mm", "mm")):
+                    add(key, m, ps)
+            elif kd == "CXXMethodDecl" and m.get("name") in ("operator+=", "operator-=", "operator*=") \
+                    and any(c.get("kind") == "CompoundStmt" for c in kids(m)) and \
+                    "basic_fitness_t<double>" in m.get("type", {}).get("qualType", ""):
+                key, ps = fn_key(m, member=True)
+                add(key, m, ps, member=True)
+    missing = [k for k, _ in FUNCS if k not in found]
+    if missing:
+        raise Refuse("no definition found for %s" % ", ".join("%s%s" % k for k in missing))
+    return found
+
+
+def translate_fn(key, f, ps, member):
+    ln = LEAN[key]
+    t = Tr(ln)
+    params = []
+    if member:
+        t.vars["self"] = ("self", "vec")
+        params.append(("self", "vec"))
+    for p, kd in zip(ps, key[1][1:] if member else key[1]):
+        nm = p.get("name")
+        if nm is None:
+            raise Refuse("%s: unnamed parameter" % ln)
+        t.vars[nm] = ("out" if kd == "ostream" else nm, kd)
+        params.append((nm, kd))
+    body = [c for c in kids(f) if c.get("kind") == "CompoundStmt"][0]
+    rtype = split_params(f.get("type", {}).get("qualType", ""))[0]
+    rk = kind_of(rtype)
+    if rk == "ostream":          # `operator<<`: the function denotes the characters written to `o`
+        if key[1] != ("ostream", "vec"):
+            raise Refuse("%s: stream result" % ln)
+        txt = 'let out := "";\n' + t.stmts([body], None)
+        rk = "str"
+    else:
+        txt = t.stmts([body], None)
+    return ln, params, rk, txt, t.deps, t.shape
+
+
+def render_params(params):
+    out, i = [], 0
+    while i < len(params):
+        j = i
+        while j + 1 < len(params) and params[j + 1][1] == params[i][1]:
+            j += 1
+        names = " ".join(p[0] for p in params[i:j + 1])
+        kd = params[i][1]
+        if kd == "ostream":
+            out.append("(fmt : F → String)")
+        elif kd == "mm":
+            out.append("(%s : MM F)" % names)
+        else:
+            out.append("(%s : %s)" % (names, LEAN_TY[kd]))
+        i = j + 1
+    return " ".join(out)
+
+
+def indent(txt):
+    """purely cosmetic: indent by the nesting of `if/else` and of open parentheses"""
+    out, depth = [], 1
+    stack = []
+    for ln in txt.split("\n"):
+        ln = ln.strip()
+        if ln == "else" and stack:
+            depth = stack[-1]
+            out.append("  " * depth + ln)
+            depth += 1
+            continue
+        out.append("  " * depth + ln)
+        if ln.startswith("if ") and ln.endswith(" then"):
+            stack.append(depth)
+            depth += 1
+        opens = ln.count("(") - ln.count(")")
+        if opens < 0 and stack:
+            # leaving a lambda closes the conditionals opened inside it
+            while stack and stack[-1] >= depth + opens:
+                stack.pop()
+            depth = max(1, depth + opens)
+        elif opens > 0:
+            depth += opens
+    return "\n".join(out)
 
 
 def translate():
-    docs = ast_dump("fitness_tu.cc", "vita::operator")
-    found = {}
-    mm = None
-    for d in docs:
-        if d.get("kind") == "FunctionTemplateDecl" and d.get("name") in OPS:
-            f = specialisation(d)
-            if f is None:
-                continue
-            ps = params_of(f, "basic_fitness_t<double>")
-            if ps is None:
-                continue          # the small_vector operators
-            if d["name"] in found:
-                raise Refuse("two definitions of %s for basic_fitness_t" % d["name"])
-            found[d["name"]] = (f, ps)
-        if d.get("kind") == "FunctionDecl" and d.get("name") == "operator>=":
-            ps = params_of(d, "model_measurements")
-            if ps is not None and any(c.get("kind") == "CompoundStmt" for c in kids(d)):
-                if mm is not None:
-                    raise Refuse("two definitions of model_measurements operator>=")
-                mm = (d, ps)
-    missing = [o for o in OPS if o not in found]
-    if missing:
-        raise Refuse("no free-function template definition found for %s" % missing)
-    if mm is None:
-        raise Refuse("operator>=(model_measurements, model_measurements) not found")
+    found = collect()
     defs = {}
-    for name, (f, ps) in found.items():
-        t = Tr(ps, "fitness")
-        body = [c for c in kids(f) if c.get("kind") == "CompoundStmt"][0]
-        e = t.body([body])
-        defs[name] = (e, t.deps, t.shape)
-    # dependency order; a cycle would be an infinite recursion in C++
+    for key, (f, ps, member) in found.items():
+        ln, params, rk, txt, deps, shape = translate_fn(key, f, ps, member)
+        defs[ln] = (key, params, rk, txt, deps, shape)
     order, state = [], {}
 
     def visit(n, path):
@@ -229,33 +918,37 @@ def translate():
         if state.get(n) == 1:
             raise Refuse("recursive derivation: %s" % " -> ".join(path + [n]))
         state[n] = 1
-        for dname in sorted(defs[n][1]):
-            visit(dname, path + [n])
+        for d in sorted(defs[n][4]):
+            if d != n:
+                visit(d, path + [n])
+            else:
+                raise Refuse("%s calls itself" % n)
         state[n] = 2
         order.append(n)
 
-    for n in OPS:
-        visit(n, [])
-    t = Tr(mm[1], "mm")
-    body = [c for c in kids(mm[0]) if c.get("kind") == "CompoundStmt"][0]
-    mme = t.body([body])
-    return order, defs, (mme, t.shape)
+    for _, ln in FUNCS:
+        visit(ln, [])
+    return order, defs
 
 
 def emit(path):
-    order, defs, (mme, mmshape) = translate()
-    L = ["-- GENERATED by tools/translate_fitness_ops.py from src/kernel/fitness.tcc and",
-         "-- src/kernel/model_measurements.h (regenerated on every check run; do not edit)",
-         "import Vita.C18.Model", "namespace Vita.C18.Gen", "open Vita.C18", ""]
-    for n in order:
-        e, deps, shape = defs[n]
-        L.append("/-- `%s(lhs, rhs)`, built from: %s -/" % (n, " ; ".join(shape) if shape else "constants"))
-        L.append("def %s {α : Type} (key : α → Int) (lhs rhs : List α) : Bool :=\n  %s\n" % (OPS[n], e))
-    L.append("/-- `operator>=(model_measurements lhs, rhs)`, built from: %s -/" % " ; ".join(mmshape))
-    L.append("def mmGe {α : Type} (key : α → Int) (lhs rhs : MM α) : Bool :=\n  %s\n" % mme)
-    table = [(n, defs[n][0]) for n in order] + [("mm::operator>=", mme)]
-    L.append("def table : List (String × String) :=\n  [" +
-             ",\n   ".join('("%s", "%s")' % (a, b) for a, b in table) + "]")
+    order, defs = translate()
+    L = ["-- GENERATED by tools/translate_fitness_ops.py from the clang AST of src/kernel/fitness.tcc,",
+         "-- src/utility/utility.h and src/kernel/model_measurements.h of the working tree",
+         "-- (regenerated on every check run; do not edit).  Bodies, as terms of the loop language of Loop.lean.",
+         "import Vita.C18.Loop", "set_option linter.unusedVariables false", "namespace Vita.C18.Gen",
+         "open Vita.C18", ""]
+    table = []
+    for ln in order:
+        key, params, rk, txt, deps, shape = defs[ln]
+        sig = "%s(%s)" % (key[0], ", ".join(key[1]))
+        L.append("/-- `%s`%s -/" % (sig, (" — calls " + ", ".join(sorted(set(shape)))) if shape else ""))
+        L.append("def %s {F : Type} (c : Cmp F) (o : FOps F) %s : Option %s :=\n%s\n" % (
+            ln, render_params(params), LEAN_TY[rk] if " " not in LEAN_TY[rk] else "(%s)" % LEAN_TY[rk], indent(txt)))
+        table.append((sig, ln, " ".join(txt.split())))
+    L.append("/-- the translated functions: C++ signature, Lean name -/")
+    L.append("def functions : List (String × String) :=\n  [" +
+             ",\n   ".join('("%s", "%s")' % (a, b) for a, b, _ in table) + "]")
     L.append("\nend Vita.C18.Gen\n")
     txt = "\n".join(L)
     old = open(path).read() if os.path.exists(path) else None
@@ -269,9 +962,10 @@ def emit(path):
 if __name__ == "__main__":
     here = os.path.dirname(os.path.dirname(os.path.abspath(__file__)))
     try:
-        table, changed = emit(os.path.join(here, "lean", "Vita", "C18", "GenOps.lean"))
-        for a, b in table:
-            print("%-16s := %s" % (a, b))
+        table, changed = emit(sys.argv[1] if len(sys.argv) > 1 else
+                              os.path.join(here, "lean", "Vita", "C18", "GenOps.lean"))
+        for a, b, t in table:
+            print("%-40s %-14s %s" % (a, b, t[:110]))
         print("(changed)" if changed else "(unchanged)")
     except Refuse as e:
         print("REFUSE:", e)
